@@ -432,6 +432,40 @@ fn decoder(run: &mut Run, tier: Tier) {
         // many ones with a few larger weights
         cases.push((0..len).map(|i| if i % 9 == 8 { 4 } else { 1 }).collect());
     }
+    // listed weights summing to exactly 2^k (k = 1..=12), one unit below and one above, in every shape reached by
+    // splitting the smallest splittable weight again and again: the depth limit sits at k = 11 (an implied last
+    // weight of 12), which the short complete vectors above reach only through [11, 11] and its permutations
+    for k in 1..=12u8 {
+        let mut v: Vec<u8> = vec![k, k];
+        while v.len() <= 128 {
+            for order in 0..3 {
+                let mut w = v.clone();
+                match order {
+                    1 => w.reverse(),
+                    2 => w = perm(w.len(), k as u64).into_iter().map(|i| v[i]).collect(),
+                    _ => {}
+                }
+                cases.push(w.clone());
+                let mut plus = w.clone();
+                plus.push(1);
+                cases.push(plus);
+                if let Some(p) = w.iter().position(|&x| x == 1) {
+                    w.remove(p);
+                    cases.push(w);
+                }
+            }
+            // split the last weight that is > 1 into two of weight - 1
+            match v.iter().rposition(|&x| x > 1) {
+                Some(p) => {
+                    v[p] -= 1;
+                    let x = v[p];
+                    v.insert(p, x);
+                }
+                None => break,
+            }
+        }
+    }
+    cases.retain(|c| !c.is_empty() && c.len() <= 128);
     let accs = meter::par_fold(cases.len(), th, Acc::default, |a, i| decoder_case(a, &cases[i]));
     merge(run, "C13", "decoder_shaped_weight_vectors_len_1_to_128", accs, false);
 }
